@@ -71,6 +71,41 @@ def ab2rfLoop : List α → List α → List α → Nat → List (α × α)
       (cj, sj) :: ab2rfLoop cs ab.1 ab.2 n
     | _, _ => []
 
+/-! ### hard-pulse simulation as a pair of polynomials in the gradient phase factor
+
+For a constant gradient every sample of `abrm_hp` / `blochsim` has the same phase factor `z = exp(-i(x·g + dom0dt))`
+and the Cayley–Klein state after `n` samples is a pair of polynomials `(A_n(z), B_n(z))` with `n` coefficients each
+(degree `< n` in the code's `z`, i.e. in `z⁻¹` of the SLR literature where `z = exp(+i·ω·dt)`).  The state is kept
+as the two coefficient lists, lowest power first.  `b = b * z` is the shift `0 :: b`; `a` is padded `a ++ [0]`.
+Start `([1], [])` = `(1, 0)`; `List.zipWith` cuts the first step to one coefficient each.  Props/C19Slr.lean proves
+that evaluating these lists at `z` IS the generated simulation (`hpPoly_eval`), so the lists are not a second model:
+they are what `Gen.Sim.abrmHpSim` computes, for every `z`. -/
+section poly
+variable [OfNat α 0] [OfNat α 1]
+
+/-- Horner evaluation of a coefficient list (lowest power first) -/
+def peval (ζ : α) : List α → α
+  | [] => 0
+  | c :: l => c + ζ * peval ζ l
+
+/-- one `abrm_hp` sample on coefficient lists: `A' = A·C - z·B·conj(S)`, `B' = A·S + z·B·C` -/
+def hpPolyStep (C S : α) (ab : List α × List α) : List α × List α :=
+  (List.zipWith (fun x y => x * C - y * conj S) (ab.1 ++ [0]) (0 :: ab.2),
+   List.zipWith (fun x y => x * S + y * C) (ab.1 ++ [0]) (0 :: ab.2))
+
+/-- the polynomial pair of a hard-pulse train (samples in time order); per sample `C = p.C` and `S` by the
+GENERATED formula `abrmHpParam_S` (`1j * exp(1j*angle(rf)) * sin(|rf|/2)`); `p.z` is not used. -/
+def hpPoly (w : List (HpAtoms α)) : List α × List α :=
+  w.foldl (fun ab p => hpPolyStep p.C (abrmHpParam_S p) ab) ([1], [])
+
+/-- the same pair in the convention of `slr.ab2rf`'s arrays: `a_slr = reverse(conj A)`, `b_slr = 1j·reverse(conj B)`
+(on the unit circle `A_slr(z) = z^{n-1}·conj A(z)`, `B_slr(z) = i·z^{n-1}·conj B(z)`: same magnitudes).  Over ℂ the
+map is an involution (`toSlr_toSlr`), so it also takes `ab2rf`'s arrays back to the simulator's polynomials. -/
+def toSlr (ab : List α × List α) : List α × List α :=
+  (ab.1.reverse.map conj, ab.2.reverse.map fun x => HasI.I * conj x)
+
+end poly
+
 /-! ### Gaussian rationals for the driver -/
 
 structure GRat where
@@ -89,6 +124,8 @@ instance : Div GRat := ⟨fun x y =>
   ⟨(x.re * y.re + x.im * y.im) / d, (x.im * y.re - x.re * y.im) / d⟩⟩
 instance : HasConj GRat := ⟨fun x => ⟨x.re, -x.im⟩⟩
 instance : HasI GRat := ⟨⟨0, 1⟩⟩
+instance : OfNat GRat 0 := ⟨⟨0, 0⟩⟩
+instance : OfNat GRat 1 := ⟨⟨1, 0⟩⟩
 end GRat
 
 end SigpyVerif.C19
